@@ -29,6 +29,8 @@ class Facts:
                 raise AnchorMissing(f"no facts for crate {name}")
             with open(p) as f:
                 d = json.load(f)
+            import norm
+            norm.normalise_crate(name, d)
             d["_bodies"] = {}
             for b in d["bodies"]:
                 d["_bodies"].setdefault(b["path"], []).append(b)
